@@ -299,15 +299,20 @@ def limitOf (first skip : Nat) : Option Int × Option Nat :=
   if skip = 0 then (if first = 0 then none else some (first : Int), none)
   else (some (if first = 0 then -1 else (first : Int)), some skip)
 
-/-- **`SingleQuery::build`** for a query of the fragment -/
-def compile (nm : Names) (s : Schema) (vn : Nat → String) (q : Query) : SqlSelect :=
-  let pr := projLoop nm s q.ent [] q.sels
+/-- `get_entity_query` for a query of the fragment, continuing the bind list `ps` (a sub-selection continues the
+    list of the statement it is part of) -/
+def compileFrom (nm : Names) (s : Schema) (vn : Nat → String) (ps : Binds) (q : Query) : SqlSelect :=
+  let pr := projLoop nm s q.ent ps q.sels
   let fl := filtersLoop nm s q.ent vn pr.1 0 q.filters
   let pg := pagingOf nm q.ent fl.1 q
   let lim := limitOf q.first q.skip
   { table := nm.table, entity := nm.entShort q.ent, proj := pr.2, filters := fl.2, paging := pg.2,
     order := q.orders.map fun o => { lhs := orderLhs nm q.ent o, desc := o.desc },
     limit := lim.1, offset := lim.2, binds := pg.1 }
+
+/-- **`SingleQuery::build`** for a query of the fragment -/
+def compile (nm : Names) (s : Schema) (vn : Nat → String) (q : Query) : SqlSelect :=
+  compileFrom nm s vn [] q
 
 /-! ## The fragment -/
 
